@@ -244,7 +244,8 @@ class EArray(Engine):
                    'element-wise in-place operators may keep or drop trailing bits (DESIGN 5.3)',
                    'native byte order and array.array item sizes are those of the machine running the check']
     expected_probes = ('trailing:item-op', 'iop:first-unfit-at-0', 'iop:first-unfit-in-middle', 'iop:first-unfit-at-last',
-                       'extend:producer-fault-fired', 'setslice:producer-fault-fired', 'extend:bad-value-after-prefix',
+                       'extend:producer-fault-fired', 'setslice:producer-fault-fired',
+                       # ('extend:bad-value-after-prefix' can no longer fire: extend builds all items before changing anything)
                        'fromfile:short', 'promote:float-beats-int', 'promote:signed-beats-unsigned', 'promote:longer',
                        'promote:tie-first', 'slice:negative-step', 'insert:beyond-end', 'insert:negative',
                        'dtype:reread-changes-len', 'cache_clear', 'dtype:width>64', 'dtype:bytes', 'dtype:struct-code',
